@@ -12,6 +12,7 @@
   ["E", e]  ["maxof", e...]  ["minof", e...]
   ["<=", l, r] [">=", l, r] ["==", l, r]
   ["kl", e, phat, r]          rso.kldiv
+  ["expcone", y, x, z]        rso.expcone
 """
 import numpy as np
 
@@ -106,6 +107,8 @@ class Builder:
             v = const(e[2])
             h = self.hooks.get('const')
             return rso.kldiv(self.ev(e[1]), h(v) if h else v, e[3])
+        if t == 'expcone':
+            return rso.expcone(self.ev(e[1]), self.ev(e[2]), self.ev(e[3]))
         if t == 'quad':
             v = const(e[2])
             h = self.hooks.get('const')
